@@ -3,7 +3,11 @@
 # when it no longer applies or builds), then every check listed in meta.json "detected_by_checks" must report a VIOLATION.
 export GOFLAGS=-mod=mod GOPROXY=off GOSUMDB=off GOTOOLCHAIN=local
 export GOCACHE=/tmp/verif-gocache-alt
+# SHARD=k NSHARDS=n: only every n-th seed starting at k (several shards can run side by side)
+idx=0
 for d in /verif/seeded/*/; do
+  idx=$((idx+1))
+  if [ -n "${NSHARDS:-}" ] && [ $((idx % NSHARDS)) -ne "${SHARD:-0}" ]; then continue; fi
   n=$(basename $d)
   [ -f $d/patch.diff ] || continue
   checks=$(python3 -c "import json;print(' '.join(json.load(open('$d/meta.json')).get('detected_by_checks',[])))" 2>/dev/null)
@@ -18,4 +22,4 @@ for d in /verif/seeded/*/; do
   done
   rm -rf $m
 done
-rm -rf /tmp/verif-gocache-alt
+[ -n "${NSHARDS:-}" ] || rm -rf /tmp/verif-gocache-alt
